@@ -69,6 +69,11 @@ Lemma dict_sigkey_refuted :
                 dict_append d1 (VSig SBool) (VU8 2) = Ok d2 /\ d2 = VDict SSig SU8 [(VSig SU8, VU8 2)].
 Proof. eexists. eexists. vm_compute. repeat split; reflexivity. Qed.
 
+Lemma full_statement_refuted : ~ C08_full_statement.
+Proof.
+  intros [[R _] _]. destruct eq_refl_refuted as [v Hv]. rewrite (R v) in Hv. discriminate Hv.
+Qed.
+
 (* ---------------------------------------------------------------- outside the known classes ---- *)
 Lemma Known_inv a b c : Known_C08 [a; b; c] = false ->
   (nf a /\ nf b /\ nf c) /\
